@@ -83,6 +83,8 @@ class IndexedBasedFinder(dict):
         """
         if not k:
             raise KeyError(k)
+        if k in sympify_namespace: # qupulse's own functions (Len, Broadcast, IndexedBroadcast) are not symbols
+            return sympify_namespace[k]
         if hasattr(sympy, k): # if k is a sympy base type identifier, return the base type
             return getattr(sympy, k)
 
